@@ -273,9 +273,9 @@ class RoundTrip(Harness):
                  OF + ':OFDM._prepare_decoded_signal', OF + ':OFDM._add_CP',
                  OF + ':OFDM._remove_CP', OF + ':OFDM._calculate_power_scale',
                  OF + ':OFDM.modulate', OF + ':OFDM.demodulate')
-    bounds = ('fft in {2,3,4,6,8,12} (both tiers); every cp in 0..fft; every '
-              'even used in 2..fft; every input length n in 1..2*used+1; '
-              'input entries symbolic complex')
+    bounds = ('fft in {2,3,4,6,8} (quick) + 12 (thorough); every cp in '
+              '0..fft; every even used in 2..fft; every input length n in '
+              '1..2*used+1; input entries symbolic complex')
     stubs = ('np.fft.fft/ifft -> exact DFT matrix over Q(i,sqrt2,sqrt3) '
              '(pysym.dft)', )
     assumptions = ('floats are exact reals (the power scale sqrt is the '
@@ -288,7 +288,8 @@ class RoundTrip(Harness):
 
     def configs(self, tier):
         out = []
-        for fft in (2, 3, 4, 6, 8, 12):     # cheap: both tiers run all
+        for fft in (2, 3, 4, 6, 8) if tier == 'quick' else (2, 3, 4, 6, 8,
+                                                            12):
             for cp in range(fft + 1):
                 for used in range(2, fft + 1, 2):
                     out.append(dict(fft=fft, cp=cp, used=used,
@@ -329,10 +330,6 @@ class RoundTrip(Harness):
             # identities are linear in x: no exact non-linear query needed)
             prove_zero(ctx, 'roundtrip' + tag, rx - ref,
                        fallback_exact=False)
-
-    def _check(self, cfg, n, x):
-        bad, info = numeric_case(cfg['fft'], cfg['cp'], cfg['used'], x)
-        return bad, info
 
     def replay(self, cfg, name, model):
         fft, cp, used = cfg['fft'], cfg['cp'], cfg['used']
@@ -397,7 +394,7 @@ class Equalize(Harness):
                  FA + ':TdlChannelProfile.get_discretize_profile')
     bounds = ('quick: fft 2, 3 and 4 with every cp in 0..fft, every even '
               'used, every delay layout with <= 3 taps inside 0..cp, n in {1, '
-              'used+1, 2*used+1}; fft 6 (every used) and 8 (used in {2,6,8}) '
+              'used+1, 2*used+1}; fft 6 (used in {2,6}) and 8 (used in {2,6,8}) '
               'with every cp, covering layouts (all single delays, all pairs '
               'ending at cp, widest/densest triples), n = used+1 (and 1, '
               '2*used+1 when cp is 0 or fft).  thorough: fft '
@@ -429,7 +426,7 @@ class Equalize(Harness):
                         for lay in all_layouts(cp):
                             add(fft, cp, used, lay,
                                 [1, used + 1, 2 * used + 1])
-            for fft, useds in ((6, (2, 4, 6)), (8, (2, 6, 8))):
+            for fft, useds in ((6, (2, 6)), (8, (2, 6, 8))):
                 for cp in range(fft + 1):
                     for used in useds:
                         for lay in covering_layouts(cp):
@@ -484,7 +481,11 @@ class Equalize(Harness):
             if not (isinstance(y, np.ndarray) and y.shape == ref.shape):
                 ctx.prove('equalize' + tag, False)
                 continue
-            prove_zero(ctx, 'equalize' + tag, y - ref, fallback_exact=False)
+            # on a correct tree the first LRA stage closes the identity; a
+            # failure is a candidate decided by replay (clearing the
+            # denominators of up to `used` inverse atoms explodes)
+            prove_zero(ctx, 'equalize' + tag, y - ref, fallback_exact=False,
+                       clear_denominators=False)
 
     def replay(self, cfg, name, model):
         fft, cp, used = cfg['fft'], cfg['cp'], cfg['used']
@@ -992,7 +993,8 @@ class CeilFP(Harness):
         return cnt
 
 
-HARNESSES = [RoundTrip(), Equalize(), ZeropadCount(), CeilFP()]
+# the units with external solver calls first (they are the longest)
+HARNESSES = [CeilFP(), ZeropadCount(), RoundTrip(), Equalize()]
 
 MANIFEST = dict(
     category='model_checking',
